@@ -782,6 +782,134 @@ theorem revokeAdmin_print_parse (fuel : Nat) (s : PState) (user k : Str)
   rw [P.run_bind _ _ s2 user s3 h3]
   rfl
 
+/-! ## the dispatch keywords at text level
+
+`ParseStatement` walks the tree of parse_tree.go along the statement's keywords. On the printed
+keywords (upper case, single blanks) every round of `dispatchLoop` reads one keyword and descends;
+the last one selects the handler, which starts right after it. Together with a family theorem
+this gives the round trip through `ParseStatement` itself, on the whole printed text. -/
+
+/-- Follow keyword tokens through the regenerated dispatch tree from node `idx`: the handler the
+last one selects. -/
+def dispatchPath : Nat → List Token → Option Handler
+  | _, [] => none
+  | idx, t :: rest =>
+    match lookupTok t (dispatch.getD idx default).subs with
+    | some j => dispatchPath j rest
+    | none =>
+      match rest with
+      | [] => lookupTok t (dispatch.getD idx default).handlers
+      | _ :: _ => none
+
+/-- Keywords in their canonical spelling, separated by single blanks. -/
+def kwText : List Token → Str
+  | [] => []
+  | [t] => t.str
+  | t :: t2 :: rest => t.str ++ ' ' :: kwText (t2 :: rest)
+
+/-- **The dispatch on printed keywords.** If the keywords `toks` lead from node `idx` to handler
+`h`, then `dispatchLoop` on their printed form followed by `k` (which does not continue the last
+keyword) is `h` started right before `k`. -/
+theorem dispatch_print (fuel : Nat) (h : Handler) (toks : List Token) :
+    ∀ (it idx : Nat) (s : PState) (pre k : Str), dispatchPath idx toks = some h →
+      (∀ t ∈ toks, t.isKw = true) → toks.length ≤ it → Gap pre → WordEnd k →
+      s.Before (pre ++ (kwText toks ++ k)) →
+      ∃ s', (dispatchLoop fuel it idx).run s = (runHandler fuel h).run s' ∧ s'.Before k := by
+  induction toks with
+  | nil => intro it idx s pre k hp; cases hp
+  | cons t rest ih =>
+    intro it idx s pre k hp hkw hlen hpre hk hs
+    cases it with
+    | zero => simp at hlen
+    | succ it =>
+    cases rest with
+    | nil =>
+      obtain ⟨lx, s1, h1, t1, _, b1⟩ := scanIW_piece s pre t.str k t [] hpre hs
+        (scansAs_kw t k (hkw t (by simp)) hk)
+      refine ⟨s1, ?_, b1⟩
+      simp only [dispatchPath] at hp
+      conv => lhs; unfold dispatchLoop
+      rw [P.run_bind _ _ s lx s1 h1]
+      simp only [t1]
+      cases hsub : lookupTok t (dispatch.getD idx default).subs with
+      | some j => rw [hsub] at hp; cases hp
+      | none =>
+        rw [hsub] at hp
+        simp only [hp]
+    | cons t2 rest2 =>
+      have e : pre ++ (kwText (t :: t2 :: rest2) ++ k) = pre ++ (t.str ++ ([' '] ++ (kwText (t2 :: rest2) ++ k))) := by
+        simp only [kwText, List.append_assoc, List.cons_append, List.nil_append]
+      rw [e] at hs
+      obtain ⟨lx, s1, h1, t1, _, b1⟩ := scanIW_piece s pre t.str _ t [] hpre hs
+        (scansAs_kw t _ (hkw t (by simp)) (WordEnd.blank _))
+      simp only [dispatchPath] at hp
+      cases hsub : lookupTok t (dispatch.getD idx default).subs with
+      | none => rw [hsub] at hp; cases hp
+      | some j =>
+        rw [hsub] at hp
+        obtain ⟨s', h2, b2⟩ := ih it j s1 [' '] k hp (fun x hx => hkw x (by simp [hx]))
+          (by simpa using hlen) Gap.blank hk b1
+        refine ⟨s', ?_, b2⟩
+        conv => lhs; unfold dispatchLoop
+        rw [P.run_bind _ _ s lx s1 h1]
+        simp only [t1, hsub]
+        exact h2
+
+/-- The same for `ParseStatement` (the loop has more rounds than the tree has levels). -/
+theorem parseStatement_print (fuel : Nat) (h : Handler) (toks : List Token) (s : PState) (pre k : Str)
+    (hp : dispatchPath 0 toks = some h) (hkw : ∀ t ∈ toks, t.isKw = true) (hlen : toks.length ≤ dispatch.length + 1)
+    (hpre : Gap pre) (hk : WordEnd k) (hs : s.Before (pre ++ (kwText toks ++ k))) :
+    ∃ s', (parseStatement fuel).run s = (runHandler fuel h).run s' ∧ s'.Before k :=
+  dispatch_print fuel h toks _ 0 s pre k hp hkw hlen hpre hk hs
+
+/-- The keyword paths of the families treated above: what is printed before the handler's part,
+the keywords it consists of, and the handler they select in the regenerated tree. -/
+def familyPaths : List (Str × List Token × Handler) :=
+  [(tx "SHOW CONTINUOUS QUERIES", [.SHOW, .CONTINUOUS, .QUERIES], .parseShowContinuousQueriesStatement),
+   (tx "SHOW DATABASES", [.SHOW, .DATABASES], .parseShowDatabasesStatement),
+   (tx "SHOW QUERIES", [.SHOW, .QUERIES], .parseShowQueriesStatement),
+   (tx "SHOW SHARD GROUPS", [.SHOW, .SHARD, .GROUPS], .parseShowShardGroupsStatement),
+   (tx "SHOW SHARDS", [.SHOW, .SHARDS], .parseShowShardsStatement),
+   (tx "SHOW SUBSCRIPTIONS", [.SHOW, .SUBSCRIPTIONS], .parseShowSubscriptionsStatement),
+   (tx "SHOW USERS", [.SHOW, .USERS], .parseShowUsersStatement),
+   (tx "DROP DATABASE", [.DROP, .DATABASE], .parseDropDatabaseStatement),
+   (tx "DROP MEASUREMENT", [.DROP, .MEASUREMENT], .parseDropMeasurementStatement),
+   (tx "DROP USER", [.DROP, .USER], .parseDropUserStatement),
+   (tx "SHOW GRANTS FOR", [.SHOW, .GRANTS, .FOR], .parseGrantsForUserStatement),
+   (tx "DROP RETENTION POLICY", [.DROP, .RETENTION, .POLICY], .parseDropRetentionPolicyStatement),
+   (tx "DROP CONTINUOUS QUERY", [.DROP, .CONTINUOUS, .QUERY], .parseDropContinuousQueryStatement),
+   (tx "SHOW RETENTION POLICIES", [.SHOW, .RETENTION, .POLICIES], .parseShowRetentionPoliciesStatement),
+   (tx "KILL QUERY", [.KILL, .QUERY], .parseKillQueryStatement),
+   (tx "DROP SHARD", [.DROP, .SHARD], .parseDropShardStatement),
+   (tx "DROP SUBSCRIPTION", [.DROP, .SUBSCRIPTION], .parseDropSubscriptionStatement),
+   (tx "CREATE USER", [.CREATE, .USER], .parseCreateUserStatement),
+   (tx "SET PASSWORD FOR", [.SET, .PASSWORD, .FOR], .parseSetPasswordUserStatement),
+   (tx "GRANT", [.GRANT], .parseGrantStatement),
+   (tx "REVOKE", [.REVOKE], .parseRevokeStatement)]
+
+/-- Obligation on the regenerated tables: every path above is printed as its keywords, consists of
+keywords of the scanner's table, and selects its handler from the root of the dispatch tree. -/
+theorem gen_familyPaths : ∀ p ∈ familyPaths,
+    p.1 = kwText p.2.1 ∧ (∀ t ∈ p.2.1, t.isKw = true) ∧ dispatchPath 0 p.2.1 = some p.2.2 ∧
+      p.2.1.length ≤ dispatch.length + 1 := by decide +kernel
+
+/-- **End to end, an instance:** `ParseStatement` on the whole printed text of
+`DROP RETENTION POLICY <name> ON <db>`, followed by `k`, returns that statement and stops before `k`. -/
+theorem dropRetentionPolicy_statement_print_parse (fuel : Nat) (s : PState) (name db k : Str)
+    (hex1 : Expressible name) (hex2 : Expressible db) (hk : IdentEnd db k)
+    (hs : s.Before ((Statement.dropRetentionPolicy name db).print ++ k)) :
+    ∃ s', (parseStatement fuel).run s = .ok (.dropRetentionPolicy name db, s') ∧ s'.Before k := by
+  rw [(nameOnDb_print name db).1] at hs
+  obtain ⟨hpr, hkw, hpath, hlen⟩ := gen_familyPaths (tx "DROP RETENTION POLICY", [.DROP, .RETENTION, .POLICY],
+    .parseDropRetentionPolicyStatement) (by simp [familyPaths])
+  simp only at hpr hkw hpath hlen
+  rw [hpr, List.append_assoc] at hs
+  obtain ⟨s1, h1, b1⟩ := parseStatement_print fuel _ _ s [] (nameOnDbText name db ++ k) hpath hkw hlen Gap.none
+    (WordEnd.blank _) hs
+  obtain ⟨s', h2, b2⟩ := nameOnDb_print_parse fuel .parseDropRetentionPolicyStatement .dropRetentionPolicy
+    (by simp [nameOnDbHandlers]) s1 name db k hex1 hex2 hk b1
+  exact ⟨s', by rw [h1]; exact h2, b2⟩
+
 /-! ## passwords -/
 
 /-- The printed form of `CREATE USER` / `SET PASSWORD` does not depend on the password. -/
